@@ -20,8 +20,8 @@ def run(ctx):
         cases = [ctx.replay["case"]]
     else:
         # many blocks per epoch make an aliasing absent slot likely (432 000 candidates x n / 2^24)
-        cases = gen_archives(ctx, 2 if q else 10, name="Gen_Ledger_manyblocks", eps="{1, 2, 5}", me=2, mine=2, mintx=40, depth=700, mb=70)
-        cases += gen_archives(ctx, 2 if q else 10, name="Gen_Ledger_1ep", mine=1, mintx=6)
+        cases = gen_archives(ctx, 2 if q else 25, name="Gen_Ledger_manyblocks", eps="{1, 2, 5}", me=2, mine=2, mintx=40, depth=700, mb=70)
+        cases += gen_archives(ctx, 2 if q else 25, name="Gen_Ledger_1ep", mine=1, mintx=6)
     cases = [c for c in cases if len(c["arch"]) <= 3]
 
     def nontrivial(o, c):
